@@ -479,8 +479,39 @@ func (fc *fnCtx) allowRepresentation(sc *specCtx, model string, obj Val, allowed
 var identRe = regexp.MustCompile(`u\.[A-Za-z_][A-Za-z0-9_]*`)
 
 type cachedAxiom struct {
-	text string
-	syms []string
+	text  string
+	syms  []string
+	trigs [][]string // declared symbols of each explicit trigger alternative of the outermost quantifier
+}
+
+// declaredIn collects the declared (uninterpreted) spec functions an expression mentions.
+func (e *Engine) declaredIn(x Expr, out map[string]bool) {
+	switch x := x.(type) {
+	case *CallE:
+		if _, ok := e.contracts.Decls[x.Fun]; ok {
+			out["u."+x.Fun] = true
+		}
+		if d, ok := e.contracts.Defines[x.Fun]; ok {
+			e.declaredIn(d.Body, out)
+		}
+		for _, a := range x.Args {
+			e.declaredIn(a, out)
+		}
+	case *Binary:
+		e.declaredIn(x.X, out)
+		e.declaredIn(x.Y, out)
+	case *Unary:
+		e.declaredIn(x.X, out)
+	case *IndexE:
+		e.declaredIn(x.X, out)
+		e.declaredIn(x.I, out)
+	case *SliceE:
+		e.declaredIn(x.X, out)
+	case *FieldE:
+		e.declaredIn(x.X, out)
+	case *Quant:
+		e.declaredIn(x.Body, out)
+	}
 }
 
 func (e *Engine) axiomText(fc *fnCtx, st *State, body string) string {
@@ -494,11 +525,39 @@ func (e *Engine) axiomText(fc *fnCtx, st *State, body string) string {
 	if e.axCache == nil || e.axCacheKey != usesKey {
 		e.axCache = map[string]*cachedAxiom{}
 		e.axCacheKey = usesKey
-		all := append([]*Axiom(nil), e.contracts.Axioms...)
+		var all []*Axiom
+		for _, a := range e.contracts.Axioms {
+			if a.Private {
+				// definitional unfoldings: only inside induction proofs or when a lemma asks for them
+				if e.lemmaLimit < 0 {
+					continue
+				}
+				cur := e.contracts.Lemmas[e.lemmaLimit]
+				ok := cur.Measure != nil
+				for _, u := range cur.Uses {
+					if u == a.Name {
+						ok = true
+					}
+				}
+				if !ok {
+					continue
+				}
+			}
+			all = append(all, a)
+		}
 		for i, l := range e.contracts.Lemmas {
 			if e.lemmaLimit >= 0 {
+				cur := e.contracts.Lemmas[e.lemmaLimit]
 				if i < e.lemmaLimit {
-					all = append(all, l)
+					if !cur.HasUses {
+						all = append(all, l)
+					} else {
+						for _, u := range cur.Uses {
+							if u == l.Name {
+								all = append(all, l)
+							}
+						}
+					}
 				}
 				continue
 			}
@@ -519,6 +578,21 @@ func (e *Engine) axiomText(fc *fnCtx, st *State, body string) string {
 				}()
 				v := sc.eval(a.E)
 				ca := &cachedAxiom{text: v.T}
+				if q, ok := a.E.(*Quant); ok {
+					for _, tr := range q.Triggers {
+						m := map[string]bool{}
+						for _, t := range tr {
+							e.declaredIn(t, m)
+						}
+						var ts []string
+						for k := range m {
+							ts = append(ts, k)
+						}
+						if len(ts) > 0 {
+							ca.trigs = append(ca.trigs, ts)
+						}
+					}
+				}
 				seen := map[string]bool{}
 				for _, m := range identRe.FindAllString(v.T, -1) {
 					if !seen[m] {
@@ -544,9 +618,24 @@ func (e *Engine) axiomText(fc *fnCtx, st *State, body string) string {
 				continue
 			}
 			hit := false
-			for _, s := range ca.syms {
-				if used[s] {
-					hit = true
+			if len(ca.trigs) > 0 {
+				// an axiom with explicit triggers can only fire when some trigger's symbols all occur
+				for _, tr := range ca.trigs {
+					all := true
+					for _, s := range tr {
+						if !used[s] {
+							all = false
+						}
+					}
+					if all {
+						hit = true
+					}
+				}
+			} else {
+				for _, s := range ca.syms {
+					if used[s] {
+						hit = true
+					}
 				}
 			}
 			if hit {
